@@ -87,6 +87,14 @@ def main() -> int:
     seed = int(os.environ.get("VERIF_SEED", "0") or 0)
     t0 = time.time()
     try:
+        # the library must import from the tree under test before anything is concluded from its behaviour:
+        # an import failure is an infrastructure problem (exit 2), never a property violation
+        try:
+            for m in ("sigpyproc.readers", "sigpyproc.core.kernels", "sigpyproc.core.stats", "sigpyproc.core.rfi",
+                      "sigpyproc.foldedcube", "sigpyproc.timeseries", "sigpyproc.fourierseries", "sigpyproc.block"):
+                importlib.import_module(m)
+        except Exception as e:  # noqa: BLE001
+            raise InfraError(f"the library does not import from {common.REPO}: {type(e).__name__}: {e}") from e
         common.quiet_progress()
         mod = importlib.import_module(f"props.{pid.lower()}")
         prop = mod.PROP
